@@ -19,6 +19,8 @@ FILES = ["theories/DetectGenProofs.v", "theories/DetectGenInst.v"]
 # DetectGenInst2.v depends on all groups
 GROUPS2 = [
     ("mw", "gen/DetectMw_gen.v", ["theories/DetectGenProofsMw.v"]),
+    ("email", "gen/DetectEmail_gen.v", ["theories/DetectGenProofsEmail.v"]),
+    ("web", "gen/DetectWeb_gen.v", ["theories/DetectGenProofsWeb.v"]),
 ]
 LAST2 = ["theories/DetectGenInst2.v"]
 
